@@ -2,6 +2,8 @@
 property checks."""
 from __future__ import annotations
 
+import json
+
 import random
 
 import mpmath
@@ -293,7 +295,51 @@ def build_py(ctx: Ctx, text: str, tag: str, backend: str = "numpy", rm: RefModel
         return None
     lay["missing"] = lay["missing"] or []
     b.layout = lay
+    if backend == "numpy":
+        compare_with_impl(ctx, b, text, opts)
     return b
+
+
+def compare_with_impl(ctx: Ctx, b: "PyBuild", text: str, opts: dict):
+    """the programs of the model's generators (`Impl.genRhs / genMonitor / genEuler / genGRL / genHybrid`, the objects of
+    the Impl-layer theorems) against the translated real programs: same statements in the same order
+    (which array slot is unpacked into which name, which name is defined, which slot is stored).
+    `<d>_linearized` helpers are left out: whether a linearisation is identically zero is sympy's call."""
+    stiff = list(opts.get("stiff_states") or [])
+    try:
+        r = ctx.lean().call({"op": "gen", "text": text, "deps": impl_deps(b.ode), "remove_unused": bool(opts.get("remove_unused", False)),
+                             "stiff": stiff, "delta_m": 1, "delta_e": -8})
+    except Exception:
+        return
+    if not r.get("ok"):
+        return
+
+    def skel(stmts, model_side):
+        out = []
+        for st in stmts:
+            if st[0] == "U":
+                out.append(("U", st[1], st[2], st[3]))
+            elif st[0] == "D":
+                if not str(st[1]).endswith("_linearized"):
+                    out.append(("D", st[1]))
+            else:
+                out.append(("S", st[1]))
+        return out
+
+    for fn, key in (("rhs", "rhs"), ("monitor_values", "monitor"), ("explicit_euler", "euler"),
+                    ("generalized_rush_larsen", "grl"), ("hybrid_rush_larsen", "hybrid")):
+        f = b.funcs.get(fn)
+        if f is None or r.get(key) is None or any("UNTRANSLATABLE" in o for o in f.other):
+            continue
+        if key == "hybrid" and "stiff_states" not in opts:
+            continue
+        real, model = skel(f.stmts, False), skel(r[key], True)
+        if real == model:
+            ctx.count("impl_programs_matched")
+        else:
+            ctx.count("impl_programs_differ")
+            ctx.broke("correspondence", f"Impl generator vs generated {fn} (statement skeleton)",
+                      json.dumps({"text": text, "opts": _jsonable(opts), "real": real[:40], "model": model[:40]})[:3000])
 
 
 def model_usable(rm: RefModel, text: str) -> bool:
